@@ -511,10 +511,6 @@ class OnlineVarianceMetricAdapter(Adapter):
         transition.system.metric = PositiveDiagonalMatrix(var_est).inv
         # Resample momentum to account for altered distribution due to new metric
         for chain_state, rng in zip(chain_states, rngs, strict=True):
-            # Values cached in the state which depend on the metric (for example the
-            # Gram matrix of a constrained system) were computed with the previous
-            # metric - reassigning the position clears all position dependent entries
-            chain_state.pos = chain_state.pos
             chain_state.mom = transition.system.sample_momentum(chain_state, rng)
 
 
@@ -645,8 +641,4 @@ class OnlineCovarianceMetricAdapter(Adapter):
         transition.system.metric = DensePositiveDefiniteMatrix(covar_est).inv
         # Resample momentum to account for altered distribution due to new metric
         for chain_state, rng in zip(chain_states, rngs, strict=True):
-            # Values cached in the state which depend on the metric (for example the
-            # Gram matrix of a constrained system) were computed with the previous
-            # metric - reassigning the position clears all position dependent entries
-            chain_state.pos = chain_state.pos
             chain_state.mom = transition.system.sample_momentum(chain_state, rng)
